@@ -57,6 +57,26 @@ def task_snapshotter(rng, spec):
             yield ["snap"]
 
 
+def task_dirty_targeted_reader(rng, spec):
+    """Assign an ancestor with auto-update off, then ask for one descendant only: the sweep
+    restricted to the target's ancestors must still run in dependency order."""
+    rel = M.node_inputs_from_spec(spec)
+    A = {(n if via == "node" else f"{n}_value"): (n, via, vk, shape) for (n, via, vk, shape) in assignables(spec)}
+    targets = [t for t in rel if len(M.closure(rel, t) & set(A)) > 0 and len(M.closure(rel, t)) >= 3]
+    if not targets:
+        return
+    t = rng.choice(targets)
+    roots = sorted(M.closure(rel, t) & set(A))
+    yield ["auto", False]
+    for r in rng.sample(roots, min(len(roots), rng.randint(1, 2))):
+        name, via, vk, shape = A[r]
+        yield ["assign", name, via, M.draw_value(rng, vk, shape)]
+    yield ["update_t", [t]]
+    if rng.random() < 0.5:
+        yield ["update"]
+    yield ["auto", True]
+
+
 def task_fault_armer(rng, spec):
     cc = cached_calcs(spec)
     if cc:
@@ -74,7 +94,7 @@ def task_seeder(rng, spec):
 
 def interleave(rng, spec, n_tasks, faults: bool, seeded=False, max_ops=60):
     makers = [task_single_writer, task_single_writer, task_batch_writer, task_batch_writer, task_targeted_reader,
-              task_targeted_reader, task_snapshotter, task_full_updater]
+              task_targeted_reader, task_snapshotter, task_full_updater, task_dirty_targeted_reader, task_dirty_targeted_reader]
     if faults:
         makers += [task_fault_armer, task_fault_armer, task_fault_armer]
     if seeded:
